@@ -13,15 +13,30 @@ open Rie.SM
 @[simp] theorem emit_timers (s : State) (e : String) : (s.emit e).timers = s.timers := rfl
 @[simp] theorem emit_initFlow (s : State) (e : String) : (s.emit e).initFlow = s.initFlow := rfl
 @[simp] theorem emit_invFlow (s : State) (e : String) : (s.emit e).invFlow = s.invFlow := rfl
-@[simp] theorem emit_out (s : State) (e : String) : (s.emit e).out = s.out ++ [e] := rfl
+@[simp] theorem emit_out (s : State) (e : String) : (s.emit e).out = s.out ++ [.line e] := rfl
+@[simp] theorem emit_outs (s : State) (e : String) : (s.emit e).outs = s.outs ++ [e] := by simp [State.outs, Out.str]
 @[simp] theorem emit_procs (s : State) (e : String) : (s.emit e).procs = s.procs := rfl
 @[simp] theorem emit_orch (s : State) (e : String) : (s.emit e).orch = s.orch := rfl
 @[simp] theorem emit_crashed (s : State) (e : String) : (s.emit e).crashed = s.crashed := rfl
+
+@[simp] theorem emitCaller_resv (s : State) (c : Nat) (e b : String) : (s.emitCaller c e b).resv = s.resv := rfl
+@[simp] theorem emitCaller_rt (s : State) (c : Nat) (e b : String) : (s.emitCaller c e b).rt = s.rt := rfl
+@[simp] theorem emitCaller_agents (s : State) (c : Nat) (e b : String) : (s.emitCaller c e b).agents = s.agents := rfl
+@[simp] theorem emitCaller_queue (s : State) (c : Nat) (e b : String) : (s.emitCaller c e b).queue = s.queue := rfl
+@[simp] theorem emitCaller_flights (s : State) (c : Nat) (e b : String) : (s.emitCaller c e b).flights = s.flights := rfl
+@[simp] theorem emitCaller_timers (s : State) (c : Nat) (e b : String) : (s.emitCaller c e b).timers = s.timers := rfl
+@[simp] theorem emitCaller_initFlow (s : State) (c : Nat) (e b : String) : (s.emitCaller c e b).initFlow = s.initFlow := rfl
+@[simp] theorem emitCaller_invFlow (s : State) (c : Nat) (e b : String) : (s.emitCaller c e b).invFlow = s.invFlow := rfl
+@[simp] theorem emitCaller_procs (s : State) (c : Nat) (e b : String) : (s.emitCaller c e b).procs = s.procs := rfl
+@[simp] theorem emitCaller_orch (s : State) (c : Nat) (e b : String) : (s.emitCaller c e b).orch = s.orch := rfl
+@[simp] theorem emitCaller_crashed (s : State) (c : Nat) (e b : String) : (s.emitCaller c e b).crashed = s.crashed := rfl
+@[simp] theorem emitCaller_out (s : State) (c : Nat) (e b : String) : (s.emitCaller c e b).out = s.out ++ [.caller c e b] := rfl
 
 /-- everything except the output of the current op -/
 def State.core (s : State) : State := { s with out := [] }
 
 @[simp] theorem emit_core (s : State) (e : String) : (s.emit e).core = s.core := rfl
+@[simp] theorem emitCaller_core (s : State) (c : Nat) (e b : String) : (s.emitCaller c e b).core = s.core := rfl
 @[simp] theorem reply_core (s : State) (a c r : String) : (reply s a c r).core = s.core := rfl
 
 theorem set_rt_eq (s : State) (st : RtState) (h : s.rt = some st) : { s with rt := some st } = s := by
